@@ -59,7 +59,7 @@ def check_setters(ctx, f, R):
             role = R.role_of_field(F)
             lost.append('%s%s becomes %s' % (F, ' (what %s recorded)' % R.setter[role].rsplit('::', 1)[-1] if role in R.setter else '', absx.fmt(t)[:30]))
         ctx.add('U6.setter-preserves-other-settings', nm, where, not lost,
-                '%s() does not only set its own field `%s`: %s - every setting made before it in the builder chain is silently dropped (e.g. LdapConnSettings::new().set_conn_timeout(t).%s(..) connects without the timeout; with set_starttls(true) before it, without StartTLS)' % (
+                '%s() does not only set its own field `%s`: %s - what was set before it in the builder chain is silently dropped (LdapConnSettings::new().<the other setter>(x).%s(..) behaves as if <the other setter> had never been called)' % (
                     nm, eff['own'], '; '.join(lost), nm))
     ctx.floor('U6', 'builder methods of the settings struct evaluated', n, 3)
 
